@@ -299,3 +299,5 @@ INFO = dict(
     outside=["termination / convergence rate of agenda and naive_bottom_up on recursive systems", "tolerance effects", "IEEE rounding"],
     assumptions=["weights >= 0"],
 )
+
+INFO["technique"] = 'symbolic execution of agenda/naive_bottom_up/treesum with z3 real weights and all pop orders; one inductive step of the real agenda loop from an arbitrary symbolic state (hook H1) proved by z3; bounded'
